@@ -189,6 +189,37 @@ def cfg_zones(ctx):
             want = to_cnf(ast.parse(f'{z}.start < self.global_zone.start or {z}.end > self.global_zone.end', mode='eval').body, True, res)
             if got == want and filter_facts_at(ctx, mm, i, res) == []:
                 hit = i
+    if hit is None:
+        # find-first spelling: `bad = next((z for z in self._zones.values() if <outside>), None)` / `if bad is not None: exit`
+        # (or the search loop the normaliser makes of it: the abort follows the loop)
+        from engine.helpers import body_only_aborts
+        from engine.lin import to_cnf
+        found = {}
+        for n in ast.walk(mm.node):
+            ge = None
+            if isinstance(n, ast.Assign) and len(n.targets) == 1 and isinstance(n.targets[0], ast.Name) and isinstance(n.value, ast.Call) \
+                    and unparse(n.value.func) == 'next' and len(n.value.args) == 2 and unparse(n.value.args[1]) == 'None' and isinstance(n.value.args[0], ast.GeneratorExp):
+                ge = n.value.args[0]
+            if ge is not None and len(ge.generators) == 1 and unparse(ge.generators[0].iter) in ('self._zones.values()', 'list(self._zones.values())') \
+                    and isinstance(ge.generators[0].target, ast.Name) and unparse(ge.elt) == ge.generators[0].target.id and len(ge.generators[0].ifs) == 1:
+                z = ge.generators[0].target.id
+                got = to_cnf(ge.generators[0].ifs[0], True, res)
+                want = to_cnf(ast.parse(f'{z}.start < self.global_zone.start or {z}.end > self.global_zone.end', mode='eval').body, True, res)
+                if got == want:
+                    found[n.targets[0].id] = n
+        for lp in [l for l in walk_no_nested(mm.node) if isinstance(l, ast.For)]:
+            if unparse(lp.iter) not in ('self._zones.values()', 'list(self._zones.values())') or not isinstance(lp.target, ast.Name) or len(lp.body) != 1 \
+                    or not isinstance(lp.body[0], ast.If) or lp.body[0].orelse:
+                continue
+            z, i0 = lp.target.id, lp.body[0]
+            want = to_cnf(ast.parse(f'{z}.start < self.global_zone.start or {z}.end > self.global_zone.end', mode='eval').body, True, res)
+            if to_cnf(i0.test, True, res) == want and len(i0.body) == 2 and isinstance(i0.body[1], ast.Break) and isinstance(i0.body[0], ast.Assign) \
+                    and isinstance(i0.body[0].targets[0], ast.Name) and unparse(i0.body[0].value) == z:
+                found[i0.body[0].targets[0].id] = lp
+        for i in [x for x in walk_no_nested(mm.node) if isinstance(x, ast.If)]:
+            for name in found:
+                if unparse(i.test) == f'{name} is not None' and body_only_aborts(i.body) and filter_facts_at(ctx, mm, i, res) == []:
+                    hit = i
     ctx.check(hit is not None, 'zones:predefined-inside-GLOBAL', mm.site(hit) if hit is not None else mm.site(),
               'every predefined zone is rejected unless GLOBAL.start <= start and end <= GLOBAL.end',
               'no aborting containment test over all zones in the manager\'s constructor: code can be assembled outside GLOBAL')
